@@ -107,6 +107,10 @@ def ObtainQuantity(
             try:
                 return quantities_cache[tuple(key)]
             except KeyError:
+                # (the quantity keeps its own map: the one received still belongs to the caller)
+                unit = OrderedDict(
+                    (category, list(unit_and_exp)) for (category, unit_and_exp) in unit.items()
+                )
                 quantity = quantities_cache[tuple(key)] = Quantity(unit, None, unknown_unit_caption)
                 return quantity
 
